@@ -43,8 +43,8 @@ ASSUMPTIONS = [
 MANIFEST_TEXT = (
     "proof (partial). Full theorems (unbounded in mode count, mode lists, cutoff, tensors; scalars any field): "
     "C16_gauss_subset_order, C16_gauss_unsorted_rejected, C16_gauss_displacement_order, C16_gauss_photon, C16_gauss_quad_photon, "
-    "C16_fock_prob_all_probs, C16_fock_trace, C16_gauss_parity_ignores_modes and C16_gauss_parity_refuted (the faithful model of "
-    "Gaussian parity_expectation ignores which modes are requested: known finding). Stated but not proved in Coq "
+    "C16_fock_prob_all_probs, C16_fock_trace, C16_gauss_parity_subset, C16_gauss_parity_order (model of parity_expectation after "
+    "fix 5603fbf). Stated but not proved in Coq "
     "(C16_fock_reduced_labels_statement, C16_fock_marginals_statement, C16_fock_parity_statement): validated each run by exact "
     "integer-tensor correspondence and captured einsum subscripts. Wigner functions, thewalrus Fock conversions, bosonic "
     "observables, fidelities: cross-method / cross-representation search only.")
@@ -211,7 +211,12 @@ def _gauss_model_term(c):
         return "f_mean_photon %s %s %d %s %d" % (mu, cov, n, cfl(hb), c["modes"][0])
     if m == "quad_expectation":
         return "f_quad_expectation %s %s %d %s %s %d" % (mu, cov, n, cfl(np.cos(c["phi"])), cfl(np.sin(c["phi"])), c["modes"][0])
-    return "f_parity_coded %d %s %s %s" % (n, cfl(_G(st.means(), st.cov())), cfl(hb / 2), modes)
+    ms = sorted(c["modes"])
+    g = 0.0
+    if len(set(ms)) == len(ms) and all(x < n for x in ms):
+        idx = ms + [x + n for x in ms]
+        g = _G(np.asarray(st.means())[idx], np.asarray(st.cov())[np.ix_(idx, idx)])
+    return "f_parity %s %s %d %s %s %s" % (mu, cov, n, cfl(g), cfl(hb / 2), modes)
 
 
 def _flat(x):
